@@ -20,6 +20,7 @@ RULE = ('case = one accepted generated document (both attribution modes; stores 
         'tree, biased towards collapsing runs near the start so that store blocks shrink and merge): after assigning one '
         'of 12 spacing strings the printed text == text with exactly that run replaced, and a non-empty string reads back. '
         'After a setter that replaces pure line ends by pure line ends (no blanks on either side; the printed text lexes into the same non-empty tokens the edited store holds), all models of the edited tree must read the same spacing as the models of a fresh parse of the printed text (neighbour agreement after the write). Non-trivial = the run is non-empty or the assigned string is; distinct = hash(text, path, side, string).')
+RULE += (' Also (rounds 7-10): line-end-only assignment chains on one tree with sweeps against a fresh parse also where the gap had been empty; a text-level oracle for the gap between neighbouring entries of a file (where the text between them is blanks and line ends only, both read exactly that text).')
 ASSUMPTIONS = ['spacing strings are drawn from [ \\t]+ and \\r?\\n groups, the domain the statement names']
 
 
